@@ -95,27 +95,74 @@ def model_cmp(trace):
     return " ".join(toks[:toks.index("panic") + 1]) if "panic" in toks else trace
 
 
-def run_scripts(impl, reqs, timeout=900):
-    """Run script lines; never loses a trace: a script that kills the process is re-run alone in streaming mode."""
+ALONE_TIMEOUT = 150          # seconds for ONE request run alone (a request takes milliseconds; >= 10x any batch share)
+ALONE_ATTEMPTS = 3
+FAILED = ("crash", "timeout", "crash-unisolated", "timeout-unisolated")
+
+
+def _alone(impl, engine, line, stream=False, timeout=ALONE_TIMEOUT):
+    """run one request in its own process; returns (returncode | None on timeout, stdout, stderr)"""
     import subprocess
+    env = dict(os.environ, RT_NATIVE_STREAM="1") if stream else None
+    try:
+        p = subprocess.run([impl, engine], input=line + "\n", capture_output=True, text=True, timeout=timeout, env=env)
+        return p.returncode, p.stdout, p.stderr
+    except subprocess.TimeoutExpired as e:
+        dec = lambda b: b.decode(errors="replace") if isinstance(b, bytes) else (b or "")
+        return None, dec(e.stdout), dec(e.stderr)
+
+
+def run_engine(impl, engine, reqs, timeout=900, stats=None):
+    """vlib.run_lines + confirmation.  `run_lines` isolates a failing request by bisection with a time limit that
+    halves at every level (down to 5 s): on a loaded machine a perfectly healthy request can be answered `timeout`,
+    and a batch can be answered `crash` for reasons outside the request.  A `crash`/`timeout` answer is therefore
+    never taken at face value: the request is re-run ALONE with a generous limit, up to ALONE_ATTEMPTS times; the
+    first normal answer wins.  Only a failure that reproduces every time is kept (`crash` = the process died every
+    time, `timeout` = it never finished)."""
     from vlib import run_lines
-    outs = run_lines([impl, "script"], reqs, timeout=timeout)
+    outs = run_lines([impl, engine], reqs, timeout=timeout)
+    for i, o in enumerate(outs):
+        if o not in FAILED:
+            continue
+        kinds = []
+        for _ in range(ALONE_ATTEMPTS):
+            rc, out, _err = _alone(impl, engine, reqs[i])
+            lines = out.split("\n")
+            if rc == 0 and lines and lines[0]:
+                outs[i] = lines[0]
+                if stats is not None: stats["batch failure not reproduced alone (%s)" % o.split("-")[0]] += 1
+                break
+            kinds.append("timeout" if rc is None else "crash")
+        else:
+            outs[i] = "timeout" if all(k == "timeout" for k in kinds) else "crash"
+            if stats is not None: stats["reproduced alone %dx (%s)" % (ALONE_ATTEMPTS, outs[i])] += 1
+    return outs
+
+
+def run_scripts(impl, reqs, timeout=900, stats=None):
+    """Run script lines.  A failure of the batch runner is confirmed by re-running the script alone
+    (`run_engine`); a script that REPRODUCIBLY kills the process (a panic inside an `extern "C"` callback cannot
+    unwind) or hangs is re-run once more in streaming mode so that its trace prefix is not lost."""
+    outs = run_engine(impl, "script", reqs, timeout=timeout, stats=stats)
     runs = []
     for r, o in zip(reqs, outs):
         x = ScriptRun()
         x.raw, x.aborted = o, False
         trace, _, msg = o.partition("\t")
         if o in ("crash", "timeout"):
-            try:
-                p = subprocess.run([impl, "script"], input=r + "\n", capture_output=True, text=True, timeout=30,
-                                   env=dict(os.environ, RT_NATIVE_STREAM="1"))
-                trace, msg = p.stderr, "process aborted (panic that cannot unwind)"
-            except subprocess.TimeoutExpired as e:
-                trace = (e.stderr or b"").decode() if isinstance(e.stderr, bytes) else (e.stderr or "")
-                msg = "timeout"
-            x.aborted = True
-            if "@panic" not in trace.split(" "):
-                trace = trace.strip() + " @panic"          # died without a Rust panic (signal): judged up to here
+            rc, out, err = _alone(impl, "script", r, stream=True)
+            if rc == 0 and out.split("\n")[0]:
+                # it finished normally this time after all: take that answer (nothing is judged on a fluke)
+                x.raw = out.split("\n")[0]
+                trace, _, msg = x.raw.partition("\t")
+                if stats is not None: stats["failure not reproduced in streaming mode"] += 1
+            else:
+                x.aborted = True
+                trace = err.split("thread caused non-unwinding panic")[0].strip()
+                msg = ("process aborted (panic that cannot unwind), reproduced %dx alone" % (ALONE_ATTEMPTS + 1)) if rc is not None \
+                    else ("no answer within %d s, reproduced %dx alone" % (ALONE_TIMEOUT, ALONE_ATTEMPTS + 1))
+                if "@panic" not in trace.split(" "):
+                    trace = trace + " @panic"          # died / hung without a Rust panic: judged up to here
         toks = trace.split(" ")
         if "@panic" in toks:
             x.prefix, x.panicked = " ".join(toks[:toks.index("@panic")]), True
